@@ -163,6 +163,8 @@ func applyExplicit(h *hist, c *mCase, ptr map[int]*tree.Node) *Event {
 		return h.finish(ev)
 	case "Resolve":
 		return opResolve(h)
+	case "NNIAll":
+		return opNNIAll(h)
 	case "RemoveSingleNodes":
 		return opRemoveSingle(h)
 	case "RotateInternalNodes":
@@ -228,6 +230,17 @@ func replayEditCases(cases, out, prop string, shard, nshards int) (int, map[stri
 		}
 		h := &hist{r: rand.New(rand.NewSource(int64(k))), tw: tw, opt: opt, gp: defaultGen(), label: fmt.Sprintf("%s-case-%d", prop, k)}
 		h.t = t
+		if c.Op == "NNIAll" {
+			// the presentation asked by the case (other root, rotated neighbour lists) is part of the starting tree
+			if r := int(argInt(c.Args["preroot"])); r > 0 {
+				if n, ok := ptr[r]; ok {
+					t.Reroot(n)
+				}
+			}
+			if argBool(c.Args["prerotate"]) {
+				t.RotateInternalNodes()
+			}
+		}
 		h.proj()
 		tw.emit(&Event{Ev: "reset", Case: h.label, Op: "Init", Obj: "a", Ok: true, Post: h.p, Args: map[string]interface{}{"case": k}})
 		ev := applyExplicit(h, &c, ptr)
